@@ -562,6 +562,15 @@ impl Part for Random {
     }
 }
 
+/// Entry point of the libFuzzer target `pbt_c09` (fuzz/fuzz_targets/pbt_c09.rs includes this file as a module).
+#[allow(dead_code)]
+pub fn fuzz_one(data: &[u8]) -> Vec<Failure> {
+    thread_local! {
+        static S: (BoxedStrategy<<Random as Part>::Case>, std::collections::HashSet<String>) = (Random.strategy(Tier::Thorough), open_known_sigs_of("C09"));
+    }
+    S.with(|(st, known)| kvh::engine::fuzz_one(&Random, st, data, known))
+}
+
 fn main() {
     let mut s = Session::start(
         "C09",
@@ -580,5 +589,7 @@ fn main() {
     let max_events = s.tier.pick(6usize, 8usize);
     s.run_enum(&Exhaustive, exhaustive_cases(max_events), true);
     s.run(&Random);
+    // coverage-guided search over the same strategy and oracle (libFuzzer drives the random stream): thorough tier
+    s.fuzz_campaign(&Random, "libfuzzer:random", "pbt_c09", 3_000, 8, 8192);
     std::process::exit(s.finish());
 }
